@@ -56,7 +56,7 @@ CHECKS = {
     },
     'C05': {
         'category': 'model_checking',
-        'text': 'For 39 operation scenarios the folder is snapshotted before every kernel-level I/O call (raw write, truncate, '
+        'text': 'For 33 operation scenarios (quick; 37 thorough) the folder is snapshotted before every kernel-level I/O call (raw write, truncate, '
                 'fsync, rename/replace/link/unlink/mkdir, open-for-write, close, SQL statement, COMMIT) plus torn-write images; '
                 'each image is projected raw and read through a fresh handle; TLC evaluates Recoverable / NoTornObject / '
                 'ReadsSafe (CrashTrace.tla) on every image.',
